@@ -125,6 +125,8 @@ class Engine:
                 kind, n, arg = clean.events[i]
                 if kind in ("pre_attach", "pre_detach") and isinstance(arg, int) and len(clean.snaps[i][arg][1]) > (1 if kind == "pre_detach" else 0):
                     self.one(family, ch, call, ("evict", i))
+                if kind == "pre_attach" and isinstance(arg, int) and len(ch) > 2:
+                    self.one(family, ch, call, ("admit", i))
         if self.lockstep and call[0] in ("delchildren", "setchildren"):
             # lock step only (no model is needed): a _pre_detach_children hook that re-homes one of the children
             for i, (kind, n, arg) in enumerate(clean.events):
@@ -173,6 +175,12 @@ class Engine:
         F = self.F
         T = self.thorough
         fams = ("NM",) if self.lockstep else ("NM", "LM")
+        if ctx.shard % 2 == 1:
+            # every other shard runs in a process in which the rest of the API has been used before - including imports,
+            # exports and lookups that failed half way - on the same node classes
+            from .. import noise
+
+            ctx.count("ambient_api_use_before_workload", noise.api_noise([F.NM, F.LM, F.HNode, F.HAny, F.FalsyNM]))
         # P1: k <= 3, everything
         for fam in fams:
             for k in (1, 2, 3):
